@@ -294,3 +294,9 @@ func shapeOf(w *sim.World) string {
 	}
 	return s
 }
+
+func mustJSON(raw []byte, v any) {
+	if err := json.Unmarshal(raw, v); err != nil {
+		panic(err)
+	}
+}
